@@ -13,6 +13,7 @@ import (
 	"fmt"
 	"math/rand/v2"
 	"strings"
+	"sync/atomic"
 
 	"github.com/transparency-dev/witness/internal/verif/kit/ev"
 	"github.com/transparency-dev/witness/internal/verif/kit/gen"
@@ -37,6 +38,20 @@ func main() {
 	run.Floor("probe_size_gt_2^32", 300)
 	run.Floor("probe_growth", 3000)
 	run.Floor("probe_refresh", 1000)
+	// A witness whose store no longer answers accepts nothing, whatever the honest log submits: here a
+	// proven wedge (pool exhausted by a transaction an earlier, finished request left open) is the violation.
+	var wedges atomic.Int64
+	wit.WedgeHandler = func(desc string, proven bool) {
+		if !proven {
+			run.Inconclusive("a witness call never returned: " + desc)
+			run.Abort()
+			return
+		}
+		run.Violate("honest_update_can_never_be_accepted;store_wedged", "after a prior history of accepted and refused submissions every further call on the witness blocks forever: "+desc, -1, map[string]any{"pool": desc})
+		if wedges.Add(1) >= 2 {
+			run.Abort()
+		}
+	}
 	dir := run.Scratch()
 	run.Units("hist", run.Pick(2500, 100000), 0, func(unit int64, r *rand.Rand) {
 		o := wit.HistOpts{Gen: gen.Opts{NLogs: 1 + r.IntN(3), MaxSize: 40, Branches: 2 + r.IntN(2), ShareKeys: true}, MinSteps: 5, MaxSteps: 40, Dir: dir}
@@ -54,6 +69,10 @@ func main() {
 				}
 			}
 		})
+		if errors.Is(err, wit.ErrWedged) {
+			run.Violate("honest_update_can_never_be_accepted;store_wedged", "the witness stopped answering during the prior history: "+err.Error(), unit, map[string]any{"trace": h.Trace, "store": h.Kind})
+			return
+		}
 		if err != nil {
 			run.Inconclusive(err.Error())
 			return
@@ -137,7 +156,11 @@ func probeAll(run *ev.Run, unit int64, r *rand.Rand, rn *wit.Runner, kind, feat 
 	ctx := context.Background()
 	for _, l := range u.Logs {
 		for round := 0; round < 2; round++ {
-			v := rn.View(l, rn.Snap())
+			var snap *wit.Snapshot
+			if wd := rn.Store.Guarded(func() { snap = rn.Snap() }); wd != "" {
+				return
+			}
+			v := rn.View(l, snap)
 			comp := l.Compatible(v)
 			if v.Has && len(comp) == 0 {
 				run.Count("skipped_phantom_stored")
@@ -171,7 +194,11 @@ func probeAll(run *ev.Run, unit int64, r *rand.Rand, rn *wit.Runner, kind, feat 
 				}
 			}
 			cp := l.Honest(b, size)
-			ret, err := rn.W.Update(ctx, l.ID, v.Size, cp, proof)
+			var ret []byte
+			var err error
+			if wd := rn.Store.Guarded(func() { ret, err = rn.W.Update(ctx, l.ID, v.Size, cp, proof) }); wd != "" {
+				return
+			}
 			run.Count("evaluations")
 			run.Count("probe_" + pk)
 			if feat == "padded" {
